@@ -24,7 +24,8 @@ static int verif_digest_wrong, verif_alg_used, verif_absorb_bad;
 static size_t verif_last_r; static int verif_pending, verif_fread_calls;
 static unsigned char verif_lastbuf[16];
 static int verif_fopen_calls, verif_fgets_calls, verif_open_ok[4], verif_err[4];
-static char verif_lines[2][96];
+static char verif_line0[96], verif_line1[96];      /* two objects, not one 2-D array (see DESIGN B.5: CBMC mis-evaluated reads of the second row through a char pointer) */
+#define verif_lines_(k) ((k) == 0 ? verif_line0 : verif_line1)
 static FILE *verif_fake[4];
 static int verif_printf(const char *fmt, long arg)
 {
@@ -51,7 +52,7 @@ static size_t verif_fread(void *p, size_t sz, size_t n, FILE *f)
 static int verif_ferror(FILE *f) { return verif_err[verif_idx(f)]; }
 static int verif_fclose(FILE *f) { (void)f; return 0; }
 static char *verif_fgets(char *s, int size, FILE *f)
-{ int k = verif_fgets_calls++, i; (void)f; if (k >= VERIF_LINES) return 0; __CPROVER_assert(size >= 96, "line buffer"); for (i = 0; i < 96; ++i) s[i] = verif_lines[k][i]; return s; }
+{ int k = verif_fgets_calls++, i; (void)f; if (k >= VERIF_LINES) return 0; __CPROVER_assert(size >= 96, "line buffer"); for (i = 0; i < 96; ++i) s[i] = verif_lines_(k)[i]; return s; }
 #define printf(fmt, ...) verif_printf(fmt, (long)(__VA_ARGS__ + 0))
 #define fopen verif_fopen
 #define fread verif_fread
@@ -122,19 +123,19 @@ void h_asconsum(void)
         int wf[2] = {0, 0}, match[2] = {0, 0}, nn[2] = {0, 0}, expect_ok = 0, lines_wf = 0, malformed = 0, f = 1;
         for (k = 0; k < VERIF_LINES; ++k) {
             int n, p;
-            for (i = 0; i < 95; ++i) verif_lines[k][i] = (char)nondet_u8();
-            verif_lines[k][95] = 0;
+            for (i = 0; i < 95; ++i) verif_lines_(k)[i] = (char)nondet_u8();
+            verif_lines_(k)[95] = 0;
             n = nondet_int(); __CPROVER_assume(n >= 0 && n <= 82);
 #if defined(VERIF_NMIN)
             if (k == 0) __CPROVER_assume(n >= VERIF_NMIN && n <= VERIF_NMAX);    /* length bucket of this group (first line) */
 #endif
             nn[k] = n;
-            verif_lines[k][n] = '\n'; verif_lines[k][n + 1] = 0;            /* a line of n characters and a line end */
-            for (i = 0; i < 82; ++i) if (i < n) __CPROVER_assume(verif_lines[k][i] != 0 && verif_lines[k][i] != '\n' && verif_lines[k][i] != '\r');
-            match[k] = spec_line_matches(verif_lines[k], &wf[k]);
+            verif_lines_(k)[n] = '\n'; verif_lines_(k)[n + 1] = 0;            /* a line of n characters and a line end */
+            for (i = 0; i < 82; ++i) if (i < n) __CPROVER_assume(verif_lines_(k)[i] != 0 && verif_lines_(k)[i] != '\n' && verif_lines_(k)[i] != '\r');
+            match[k] = spec_line_matches(verif_lines_(k), &wf[k]);
             /* not modelled: a listed file name "-" (stdin) */
-            p = 64; while (p < n && verif_lines[k][p] == ' ') ++p;
-            __CPROVER_assume(!(wf[k] && p == n - 1 && verif_lines[k][p] == '-'));
+            p = 64; while (p < n && verif_lines_(k)[p] == ' ') ++p;
+            __CPROVER_assume(!(wf[k] && p == n - 1 && verif_lines_(k)[p] == '-'));
         }
         r = check_file("sums", alg);
         if (verif_open_ok[0]) {
